@@ -291,6 +291,10 @@ fn residue_size(rng: &mut Rng, v: &View) -> u32 {
         0..=3 => rng.range(1, 3) as u32,
         4..=6 => *rng.pick(&[3u32, 5, 7, 9, 11, 13, 15, 17, 19, 23, 31, 33]),
         7 => 0,
+        // "all n": the boundary values of the C04 generator (n within a few bytes of u32::MAX, of the remaining
+        // space, of a segment) also reach the capacity / alignment oracle — a request whose padded size wraps must
+        // not come back as a short handle from a recycled segment
+        8 => boundary_size(rng, v),
         _ => normal_size(rng, v),
     }
 }
@@ -361,6 +365,9 @@ pub fn next_op(rng: &mut Rng, p: &Profile, cfg: &Cfg, v: &View) -> Op {
         w[W_DROP] *= 2;
     }
     let size = |rng: &mut Rng| match p.sizes {
+        // C01: "in bounds" is decided where the arena is nearly full; one request in six is a boundary value
+        // (remaining / capacity / segment size +- a few bytes) so that those states are common in its histories too
+        Sizes::Normal if p.prop == "C01" && rng.chance(1, 6) => boundary_size(rng, v),
         Sizes::Normal => normal_size(rng, v),
         Sizes::Boundary => boundary_size(rng, v),
         Sizes::Residues => residue_size(rng, v),
